@@ -32,8 +32,9 @@ _W = ("W-queries of this family use uninterpreted leaves WITH MATCH HINTS: every
       "the pairing, so a wrong pairing can only produce a spurious counterexample (caught by native replay), never a false proof")
 ASSUMPTIONS = {
     "C10": [
-        "RC5 is checked for concrete instantiations RC5<W,R,B> (type-level generic code: one harness set per instantiation: the six of rc5/tests/mod.rs, 8/0/1, 16/1/3, 32/12/5, 32/12/0-word-table, 64/24/9, 128/28/17, the r <= 1 instantiations 32/1/5, 64/1/9, 128/1/17, and 8/128/1 for r >= 128) plus RC5<u32,U12,U0>; rounds / round trips range over EVERY key table (superset of all keys)",
-        "RC5 key expansion: steps 1-2 (key_into_words, initialize_expanded_key_table) for every instantiation and every key (rc5_kw_all); the complete expansion incl. step 3 (mix_in) only for 8/12/4, 16/16/8, 8/0/1, 16/1/3 (direct) and the r <= 1 instantiations of every word type (wiring); step 3 at the real round counts of 32/64/128-bit words did not finish (direct: > 900 s, wiring: out of memory) and rests on the native vectors of rc5/tests/mod.rs; RC5-8/128/1 has round trips only; Threefish-1024: key schedule, leaf, and direct encrypt/decrypt queries only if listed in the harness file -- its wiring queries ran out of memory",
+        "RC5 is checked for concrete instantiations RC5<W,R,B> (type-level generic code, one harness set per instantiation): the six of rc5/tests/mod.rs, 8/0/1, 16/1/3, 32/12/5, 64/24/9, 128/28/17, the r = 1 instantiations 32/1/5, 64/1/9, 128/1/17, RC5-8/128/1 (r >= 128) and RC5<u32,U12,U0> (b = 0); rounds / round trips range over EVERY key table (superset of all keys)",
+        "RC5 key expansion: steps 1-2 (key_into_words, initialize_expanded_key_table) for fifteen instantiations and every key (rc5_kw_all); the complete expansion incl. step 3 (mix_in) for 8/12/4, 16/16/8, 8/0/1, 16/1/3 (direct) and for the r <= 1 instantiations of every word type on arbitrary key words (wiring); step 3 at the real round counts of 32/64/128-bit words did not finish (direct: > 900 s, wiring: out of memory) and rests on the generic code shared with the proved instantiations plus the native vectors of rc5/tests/mod.rs; RC5-8/128/1 has round trips only (C01/C20)",
+        "Threefish-1024: key schedule and MIX leaf only; its round queries ran out of memory (wiring) or did not finish in 1 h (direct); the round code is the macro shared with Threefish-256/512",
         "RC5: leaves = the four Word operations (wrapping_add, wrapping_sub, rotate_left, rotate_right) of each word type, tied to the oracle's arithmetic mod 2^w by rc5_leaf_ops_<w> for all arguments; direct key-expansion queries run the oracle on the real leaves (same gate structure on both sides)",
         "Speck 96/128-bit blocks: round_function / inverse_round_function uninterpreted (leaf lemmas speck_leaf_round, speck_leaf_inverse); 32..64-bit blocks are direct queries",
         "Threefish: mix / inv_mix uninterpreted (leaf lemma threefish_leaf_mix); byte vs u64 entry points and round trips on an arbitrary subkey table (superset of every key and tweak); key schedule direct",
